@@ -1,6 +1,7 @@
 //! vsim: virtual clock, shared-memory world, reference models, per-property cases and checks.
 pub mod cdrv;
 pub mod clock;
+pub mod daemon;
 pub mod layout;
 pub mod model;
 pub mod props;
